@@ -22,13 +22,15 @@ Is(a) == l <= Len(Trace) /\ Trace[l].a = a /\ l' = l + 1
 
 Reset == /\ Is("Reset")
          /\ chans' = {} /\ pol' = [k \in Keys |-> NoPol] /\ nodes' = [n \in Nodes |-> 0]
-         /\ stash' = [c \in Chans |-> <<>>] /\ zombie' = {} /\ closed' = {} /\ rejects' = {}
+         /\ stash' = [c \in Chans |-> <<>>] /\ zombie' = {} /\ zkeys' = [c \in Chans |-> {}]
+         /\ closed' = {} /\ rejects' = {}
          /\ relayed' = {} /\ nmsg' = 0 /\ last' = [kind |-> "Init", res |-> "-"]
 
 B(x) == IF x THEN 1 ELSE 0
 PolIdx(c, d) == 2 * (c - 1) + d + 1
 PolMatchesOn(ks, p, g) == \A k \in ks : /\ g.pol[PolIdx(k[1], k[2])][1] = p[k].ts
                                          /\ g.pol[PolIdx(k[1], k[2])][2] = p[k].fee
+                                         /\ g.pol[PolIdx(k[1], k[2])][3] = p[k].mx
 PolMatches(p, g) == PolMatchesOn(Keys, p, g)
 (* The gossiper re-queues the premature updates of a channel from the      *)
 (* handler of its announcement, before that handler's future resolves: on  *)
@@ -72,18 +74,19 @@ ReplayAll(c, rs, g) ==
      /\ relayed' = relayed \cup UNION {RunOrder(c, o).app : o \in os}
   /\ stash' = [stash EXCEPT ![c] = <<>>]
   /\ last' = [kind |-> "ReplayAll", res |-> "-"]
-  /\ UNCHANGED <<chans, nodes, zombie, closed, rejects, nmsg>>
+  /\ UNCHANGED <<chans, nodes, zombie, zkeys, closed, rejects, nmsg>>
 
 (* a message that is not in the universe and cannot be authentic (a bit of  *)
 (* a signed message was flipped on the wire): nothing may change            *)
 Garbage == /\ last' = [kind |-> "Garbage", res |-> "-"]
-           /\ UNCHANGED <<chans, pol, nodes, stash, zombie, closed, rejects, relayed, nmsg>>
+           /\ UNCHANGED <<chans, pol, nodes, stash, zombie, zkeys, closed, rejects, relayed, nmsg>>
 
 TNext == \/ Is("Recv") /\ Recv(Trace[l].m)
          \/ Is("Replay") /\ ReplayAll(Trace[l].c, Trace[l].rs, Trace[l].g)
+         \/ Is("Zombify") /\ Zombify(Trace[l].m.c, Trace[l].m.signer)
          \/ Is("Garbage") /\ Garbage
          \/ Is("End") /\ last' = [kind |-> "End", res |-> "-"]
-                      /\ UNCHANGED <<chans, pol, nodes, stash, zombie, closed, rejects, relayed, nmsg>>
+                      /\ UNCHANGED <<chans, pol, nodes, stash, zombie, zkeys, closed, rejects, relayed, nmsg>>
          \/ Reset
          \/ (l = Len(Trace) + 1 /\ UNCHANGED <<vars, l>>)
 TSpec == TInit /\ [][TNext]_<<vars, l>>
@@ -92,7 +95,8 @@ Live == l > 1 /\ Last.a # "Reset"
 G    == Last.g
 
 \* the message is one the specification speaks about
-MsgInUniverse == (Live /\ Last.a = "Recv") => Last.m \in Universe
+MsgInUniverse == /\ (Live /\ Last.a = "Recv") => Last.m \in Universe
+                 /\ (Live /\ Last.a = "Zombify") => Last.m \in ZOUniverse
 \* THE comparison: channels, their end points, policies (timestamp, content), announced nodes - and nothing else in the graph
 ConformGraph == Live =>
   /\ \A c \in Chans : G.ch[c] = B(c \in chans)
@@ -108,6 +112,7 @@ ConformResult == (Live /\ Last.a = "Recv") => Last.res = last.res
 \* zombie index, closed-scid index, reject cache, premature stash of channels not yet known
 ConformAux == Live =>
   /\ \A c \in Chans : G.zo[c] = B(c \in zombie) /\ G.cl[c] = B(c \in closed)
+  /\ \A c \in zombie : G.zk[c] = <<B("n1" \in zkeys[c]), B("n2" \in zkeys[c])>>
   /\ \A c \in Chans : c \notin chans => G.st[c] = Len(stash[c])
   /\ \A c \in Chans : /\ G.rj[2 * (c - 1) + 1] = B(<<c, "p1">> \in rejects)
                       /\ G.rj[2 * (c - 1) + 2] = B(<<c, "p2">> \in rejects)
